@@ -20,6 +20,10 @@ func support() map[string]Term {
 		"N": irgen.Enum("int"),
 		"A": irgen.S("string"),
 		"K": irgen.Const("str"),
+		// named collections (aliases of a list / a map / a list of structs)
+		"L":  irgen.Array(irgen.S("string")),
+		"M":  irgen.Map(irgen.S("int64")),
+		"LS": irgen.Array(ref("S")),
 		"P": irgen.StructN([]irgen.Field{{Name: "n", Required: true}, {Name: "s", Required: false}}, []Term{{K: "scalar", A: "int64", Constr: true}, {K: "scalar", A: "string", Constr: true}}),
 	}
 }
@@ -73,6 +77,7 @@ func CoreLeaves() []Term {
 		irgen.S("float64"), c(irgen.S("float64")),
 		irgen.S("any"),
 		ref("S"), ref("E"), ref("A"), ref("K"), ref("P"),
+		ref("L"), ref("M"), ref("LS"),
 	}
 }
 
